@@ -68,7 +68,11 @@ def gen_absreq(rng, big=False, bighdr=False):
     r.script = rng.choice([b"/s", b"/s", b"/a", b"/a", b"/f", b"/f", b""])
     n = rng.choice([0, 1, 3, 8, 30])
     r.path = b"/" + rand_text(rng, n) if (n or r.script == b"" or rng.random() < 0.7) else b""
-    if r.script == b"" and r.path[:2] in (b"/s", b"/a", b"/f") and (len(r.path) == 2 or r.path[2:3] == b"/"):
+    if r.script == b"" and rng.random() < 0.35:
+        # no script: the first path component has a configured script name (http.script_names = /s /a /f) as a proper
+        # string prefix, or continues behind an escaped '/': SCRIPT_NAME must stay empty, PATH_INFO the whole path
+        r.path = b"/" + rng.choice([b"s", b"a", b"f"]) + rng.choice([b"ing/x", b".html", b"x", b"-v2/index", b"/x", b"s/" + rand_text(rng, 3), b"_", b"%", b"+"])
+    if r.script == b"" and r.path in (b"/s", b"/a", b"/f"):
         r.path = b"/x" + r.path
     if rng.random() < 0.8:
         for _ in range(rng.choice([0, 1, 2, 5])):
@@ -86,6 +90,10 @@ def gen_absreq(rng, big=False, bighdr=False):
             continue
         names.add(canon)
         v = rand_text(rng, rng.choice([0, 1, 5, 40]))
+        if len(v) > 3 and rng.random() < 0.6:
+            # list-like value: words separated by blanks and tabs (fold positions)
+            words = [rand_bytes(rng, rng.choice([1, 3, 7]), TOKEN_CHARS) for _ in range(rng.choice([2, 3, 6]))]
+            v = words[0] + b"".join(rng.choice([b" ", b"\t", b", ", b",\t", b" \t", b"\t ", b"  "]) + w for w in words[1:])
         v = v.replace(b'"', b"").replace(b"(", b"").replace(b"\\", b"").strip(b" \t")
         r.headers.append((nm, v))
     if bighdr:
@@ -156,11 +164,19 @@ def http_request(r, q, ck, rng):
     hs = []
     for nm, v in r.headers:
         wire = v
-        # LWS folding at an inner blank, random blanks after the colon
-        if b" " in v.strip(b" ") and rng.random() < 0.4:
-            i = v.index(b" ", 1) if b" " in v[1:] else -1
-            if i > 0:
-                wire = v[:i] + b"\r\n" + v[i:]
+        # obs-fold = CRLF 1*(SP / HTAB): the peer may break a value in front of any inner blank or tab (the code keeps
+        # that blank/tab and drops the CRLF, so the value delivered is the value meant); several folds per header
+        blanks = [i for i in range(1, len(v)) if v[i] in b" \t"]
+        if blanks and rng.random() < 0.5:
+            tabs = [i for i in blanks if v[i] == 9]
+            k = rng.choice([1, 1, 2, 5])
+            pick = set(rng.sample(blanks, min(k, len(blanks))))
+            if tabs and rng.random() < 0.7:
+                pick.add(rng.choice(tabs))
+            out, last = b"", 0
+            for i in sorted(pick):
+                out += v[last:i] + b"\r\n"; last = i
+            wire = out + v[last:]
         sep = rng.choice([b": ", b":", b" : ", b":\t ", b": \r\n "])
         if sep.endswith(b"\r\n ") and not wire:
             sep = b": "
